@@ -515,6 +515,7 @@ ParseHeader(b, p, lim, n, acc) ==
          IF ~r.ok THEN r
          ELSE ParseHeader(b, r.p, lim, n - 1, [acc EXCEPT !.sizes = Append(@, 0), !.rm = @ \cup {r.s}, !.st = r.st])
     ELSE IF c.x < 0 THEN DErr("BadLength")
+    ELSE IF c.x > Avail(c.p, lim) THEN DErr("InputEnded")    \* a chunk cannot be larger than what is left
     ELSE ParseHeader(b, c.p, lim, n - 1, [acc EXCEPT !.sizes = Append(@, c.x)])
 
 \* windows of the chunks laid out one after the other from p: seq of [lo, hi] (hi inclusive)
